@@ -9,9 +9,11 @@ import (
 	"fmt"
 	"math/rand/v2"
 	"os"
+	"runtime"
 	"sort"
 	"strconv"
 	"strings"
+	"sync"
 	"sync/atomic"
 	"testing"
 	"time"
@@ -277,8 +279,76 @@ type vC01Out struct {
 	done Done
 }
 
+// vC01GateLocker replaces the sync.Locker of the queue's `hasMoreSpace` condition (cond.L is injectable).  A producer that
+// returns from cond.Wait — woken by Signal / Broadcast or cancelled — re-locks the queue mutex through it and is parked
+// here first, WITHOUT holding the mutex, until the harness releases it: the harness, not the Go scheduler, decides in which
+// order the woken producers re-lock (since c2c5f2c26 onDone / Read wake every waiter).
+type vC01GateLocker struct {
+	mu     *sync.Mutex
+	pmu    sync.Mutex
+	parked map[uint64]chan struct{} // goroutine id -> closed by the harness to let it re-lock
+	open   bool                     // the incarnation is being wound down: nobody is parked any more
+}
+
+func (l *vC01GateLocker) Unlock() { l.mu.Unlock() }
+
+func (l *vC01GateLocker) Lock() {
+	l.pmu.Lock()
+	if l.open {
+		l.pmu.Unlock()
+	} else {
+		ch := make(chan struct{})
+		l.parked[vC01GID()] = ch
+		l.pmu.Unlock()
+		<-ch
+	}
+	l.mu.Lock()
+}
+
+// release lets the parked goroutine gid re-lock the queue; false if it is not parked
+func (l *vC01GateLocker) release(gid uint64) bool {
+	l.pmu.Lock()
+	defer l.pmu.Unlock()
+	ch, ok := l.parked[gid]
+	if ok {
+		delete(l.parked, gid)
+		close(ch)
+	}
+	return ok
+}
+
+func (l *vC01GateLocker) isParked(gid uint64) bool {
+	l.pmu.Lock()
+	defer l.pmu.Unlock()
+	_, ok := l.parked[gid]
+	return ok
+}
+
+func (l *vC01GateLocker) openAll() {
+	l.pmu.Lock()
+	defer l.pmu.Unlock()
+	l.open = true
+	for g, ch := range l.parked {
+		delete(l.parked, g)
+		close(ch)
+	}
+}
+
+func vC01GID() uint64 {
+	var buf [64]byte
+	n := runtime.Stack(buf[:], false)
+	f := strings.Fields(string(buf[:n])) // "goroutine 123 [running]:"
+	if len(f) >= 2 {
+		if g, err := strconv.ParseUint(f[1], 10, 64); err == nil {
+			return g
+		}
+	}
+	return 0
+}
+
 // an Offer that had to wait for space (runs in its own goroutine)
 type vC01Pending struct {
+	gid    uint64 // goroutine that runs the blocked Offer
 	id     uint64
 	cancel context.CancelFunc
 	done   chan struct{}
@@ -305,6 +375,7 @@ type vC01Run struct {
 	errInjected bool
 	block       bool // blockOnOverflow
 	pending     []*vC01Pending // offers blocked in hasMoreSpace.Wait, oldest first
+	locker      *vC01GateLocker // block harness: installed as hasMoreSpace.L
 	settle      func()         // block harness: run until every goroutine is durably blocked (synctest.Wait)
 	acceptedIDs map[uint64]bool
 	handedIDs   map[uint64]bool
@@ -503,15 +574,12 @@ func (r *vC01Run) kill() {
 	if r.cl != nil {
 		r.cl.dead = true // every later call of this incarnation fails
 	}
-	if r.settle != nil && r.cl != nil {
+	if r.settle != nil && r.locker != nil {
+		// producers woken by the dying operation are parked at the locker gate (not holding the mutex): let them all
+		// re-lock; they run into the dead storage client or wait again
 		r.settle()
-		// a waiter that was signalled by the dying operation may be parked at the gate of the storage client, holding
-		// the queue mutex: let it run into the dead client and return first (a goroutine blocked on that mutex is not
-		// durably blocked, synctest.Wait would never return)
-		for i := 0; i < 16 && r.cl.gateWaiting > 0; i++ {
-			r.cl.gate <- struct{}{}
-			r.settle()
-		}
+		r.locker.openAll()
+		r.settle()
 	}
 	for _, p := range r.pending {
 		p.cancel() // the process is gone: let the blocked goroutines of the old incarnation return
@@ -519,6 +587,7 @@ func (r *vC01Run) kill() {
 	if r.settle != nil && len(r.pending) > 0 {
 		r.settle()
 	}
+	r.locker = nil
 	r.pending = nil
 	r.pq, r.cl, r.outst = nil, nil, nil
 	r.shutDoneWhileOthersInFlight = false
@@ -638,10 +707,11 @@ func (r *vC01Run) do(op vC01Op) {
 		}
 		if r.block && r.pq.queueSize+sizeOf > int64(r.capacity) && sizeOf <= int64(r.capacity) {
 			// the offer will wait for space: run it in its own goroutine with a gated context
-			cctx, cancel := context.WithCancel(context.WithValue(ctx, vC01GateKey{}, true))
+			cctx, cancel := context.WithCancel(ctx)
 			p := &vC01Pending{id: id, cancel: cancel, done: make(chan struct{})}
 			pq := r.pq
 			go func() {
+				p.gid = vC01GID()
 				defer close(p.done)
 				defer func() {
 					if x := recover(); x != nil {
